@@ -26,10 +26,9 @@ NONTRIVIAL_FLOOR = 10
 
 
 def _sorted_columns(perm: list, R: int, S: int) -> list:
-    """A device mesh with the global ranks placed in a non-default order, but with every replicate-dimension column ascending: meshes whose
-    replicate groups are *not* ascending are the open finding F11 (excluded by construction, kept visible by a probe)."""
-    cols = [sorted(perm[j::S]) for j in range(S)]
-    return [cols[j][i] for i in range(R) for j in range(S)]
+    """Historical name: until the repair of F11 (5a3df1a) generated meshes had to keep every replicate column ascending; now any permutation of the
+    global ranks is a legal device mesh for the generator."""
+    return list(perm)
 
 
 def _strategy(maxW: int):
@@ -170,9 +169,6 @@ def c06_base() -> dict:
 
 
 PROBES = {
-    "F11": ("worlds", {"flavour": "hybrid_shard", "R": 4, "S": 1, "G": 2, "comm_params": False, "comm_dtype": "default", "cfg": c06_base(),
-                       "shapes": [[4, 4], [4, 4], [3]], "pseed": 1, "steps": [{"gseed": 3, "gkind": "gauss", "gscale": 1.0, "mask": [True, True, True]}],
-                       "repair": True, "mesh_perm": [0, 3, 2, 1], "probe": "F11"}),
     "F5": ("worlds", {"flavour": "hybrid_shard", "R": 2, "S": 1, "G": -1, "comm_params": False, "comm_dtype": "default", "cfg": c06_base(),
                       "shapes": [[4, 4], [4, 4]], "pseed": 1,
                       "steps": [{"gseed": 3, "gkind": "gauss", "gscale": 1.0, "mask": [True, True]}, {"gseed": 3, "gkind": "gauss", "gscale": 1.0, "mask": [True, False]}],
